@@ -1437,7 +1437,7 @@ func (h *history) doReopen() error {
 func (h *history) doCrash() error {
 	h.doMergeEnd()
 	h.restartTaint(true)
-	img := engx.ScratchDir("c13img")
+	img := engx.FastScratchDir("c13img")
 	var e error
 	perr := hx.Safe(func() {
 		if e = copyTree(h.dir, img); e != nil {
@@ -1483,7 +1483,7 @@ func (h *history) simple(op, kind string, f func() error) {
 }
 
 func runHistory(c *hx.Ctx, r *hx.Rng, idx, maxOps int, purge bool) error {
-	h := &history{c: c, r: r, idx: idx, dir: engx.ScratchDir("c13"), nParts: []int{1, 2, 4}[r.Intn(3)],
+	h := &history{c: c, r: r, idx: idx, dir: engx.FastScratchDir("c13"), nParts: []int{1, 2, 4}[r.Intn(3)],
 		cat: &meta.Data{ClusterPtNum: 1}, phys: map[string]string{}, kids: map[string]int{},
 		sp: spec{cells: map[int]map[int]map[string]string{}}, inc: map[int]int{}, walInc: map[int]int{},
 		purgeOK: purge, stalePhys: map[string]bool{}, droppedPhys: map[string]bool{}, written: map[string]bool{}, overwritten: map[string]bool{},
@@ -1669,6 +1669,13 @@ func Run(c *hx.Ctx) error {
 			}
 			continue
 		}
+		if i%8 == 5 {
+			// one tag value shared by more than 64 series: the tag->tsids rows SHOW TAG VALUES walks (wide.go)
+			if err := runWide(c, hx.NewRng(r.U64()^(uint64(i)*0xA24BAED4963EE407)), i); err != nil {
+				return err
+			}
+			continue
+		}
 		if i%8 == 3 {
 			// a history on a whole engine: the store side of drop measurement / retention policy / database (enginehist.go)
 			if err := runEngineHistory(c, hx.NewRng(r.U64()^(uint64(i)*0xA24BAED4963EE407)), i, i%16 == 11); err != nil {
@@ -1702,7 +1709,7 @@ var directed = []string{
 }
 
 func runDirected(c *hx.Ctx, idx int, script string) error {
-	h := &history{c: c, r: hx.NewRng(uint64(idx) + 77), idx: idx, dir: engx.ScratchDir("c13"), nParts: 2,
+	h := &history{c: c, r: hx.NewRng(uint64(idx) + 77), idx: idx, dir: engx.FastScratchDir("c13"), nParts: 2,
 		cat: &meta.Data{ClusterPtNum: 1}, phys: map[string]string{}, kids: map[string]int{},
 		sp: spec{cells: map[int]map[int]map[string]string{}}, inc: map[int]int{}, walInc: map[int]int{},
 		purgeOK: true, stalePhys: map[string]bool{}, droppedPhys: map[string]bool{}, written: map[string]bool{}, overwritten: map[string]bool{},
